@@ -590,7 +590,7 @@ def main():
     for r in recs:
         v = r.get("verdict")
         if v in ("violation", "violation-ub-unconfirmed"):
-            ks = [k for k in known if k.get("status") == "known" and k.get("harness") == r["harness"]]
+            ks = [k for k in known if k.get("status") == "known" and (k.get("harness") == r["harness"] or (k.get("harness_re") and re.search(k["harness_re"], r["harness"])))]
             handled = False
             for k in ks:
                 h2 = dict(byname[r["harness"]])
@@ -611,7 +611,11 @@ def main():
             (inconclusive if not r.get("core", True) and v == "inconclusive" else errors).append(r) if v != "inconclusive" or r.get("core", True) else inconclusive.append(r)
         elif v == "error":
             errors.append(r)
+    seen_k = set()
     for k in known_hit:
+        if k.get("key") in seen_k:
+            continue
+        seen_k.add(k.get("key"))
         print("KNOWN-FINDING: property=%s %s" % (pid, k.get("what")))
     for r in violations:
         c = [c for c in r.get("confirmations", []) if c.get("confirmed")] or r.get("confirmations", [])
